@@ -70,7 +70,7 @@ Definition check_apply1 (h : list st) (c : option N * N * res (list de)) : bool 
       match l, get_version h rgt with
       | Some ls, Some rs =>
           set_eqb (apply_diff N.eqb ds (keys ls)) (keys rs) &&
-          nodupb (apply_diff N.eqb ds (keys ls)) &&
+          nodupb (apply_diff N.eqb ds (keys ls)) && nodupb (mentions ds) &&
           forallb (fun p => match lookup N.eqb p ls, lookup N.eqb p rs with
                             | Some a, Some c => negb (a =? c) | _, _ => false end)
                   (flat_map (fun e => match e with Modified p => [p] | _ => [] end) ds) &&
